@@ -11,7 +11,9 @@ import sys
 
 import numpy as _real_np
 
+import z3
 from symx import And, Or, Not, Implies, eq, same_term, Sym
+from symx.core import to_real
 from symx.stubs import patched
 from .common import guarded, sym_row
 from .expl import build_storage
@@ -139,6 +141,16 @@ def _step(env, cfg, ctx):
                 Wn = W * ctx.np.exp(ctx.np.log(a) / k)
                 alts.append(And(eq(W2, Wn), eq(nxt2, _alg_l_next(ctx, k, Wn, b, nxt))))
             env.claim('weight_shrinks_then_skip_drawn_from_updated_weight', Or(*alts))
+            # the draws that feed W' and the skip must not also decide the slot / the acceptance: each of them can still be
+            # anywhere in (0,1) on this path (both ends feasible under the path condition)
+            if env.mode == 'sym':
+                free = True
+                for d in uniforms:
+                    lo, _ = env._check(to_real(d.t) < z3.RealVal(1) / 64)
+                    hi, _ = env._check(to_real(d.t) > z3.RealVal(63) / 64)
+                    free = free and str(lo) == 'sat' and str(hi) == 'sat'
+                env.claim('uniform_draws_independent_of_slot_choice', free,
+                          detail=f"slot {changed[0]}: a uniform draw used for the weight / skip is constrained by the choice of the slot")
             env.canary('skip_not_from_stale_weight',
                        Or(*[And(eq(W2, W * ctx.np.exp(ctx.np.log(a) / k)), eq(nxt2, _alg_l_next(ctx, k, W, b, nxt)))
                             for a, b in ((uniforms[0], uniforms[1]), (uniforms[1], uniforms[0]))]))
